@@ -44,12 +44,23 @@ def reaches(F, src, dst):
     return False
 
 
-def forall_check_loops(P, F, sk):
+def forall_check_loops(P, F, sk, accept_nonzero=None):
     """loops of F in which a condition is evaluated on every iteration and whose `fail` edge cannot reach a success return:
     [(header, cond eid, polarity that fails, canonical cond)] -- the shape `for(j..;j<N;j++) if(bad(a[j])) goto err;`"""
     dom = cfg.dominators(F)
     loops = cfg.loops(F)
     succ = success_returns(F)
+    if accept_nonzero is not None:
+        # a predicate helper: which of its constant returns the caller accepts
+        succ = []
+        for r in cfg.returns(F):
+            c_ = F.ex[r].get('c', [])
+            v_ = F.ex[F.strip_casts(c_[0])] if c_ else None
+            if v_ is not None and v_['k'] == 'int':
+                if (v_['v'] != 0) == accept_nonzero:
+                    succ.append(r)
+            elif v_ is not None:
+                succ.append(r)
     sblocks = {F.pos[r][0] for r in succ}
     out = []
     for h, body in loops.items():
@@ -112,15 +123,19 @@ def rejecting_predicates(P, F):
             continue
         s = blk['succs'][0 if pol else 1]
         if s is not None and not any(reaches(F, s, sb) for sb in sblocks):
-            out.append((H, c))
+            out.append((H, c, True))            # a non-zero result of H is rejected
+            continue
+        s = blk['succs'][1 if pol else 0]
+        if s is not None and not any(reaches(F, s, sb) for sb in sblocks):
+            out.append((H, c, False))           # a zero result of H is rejected (`if(!all_distinct(..))goto err;`)
     return out
 
 
 def forall_checks_deep(P, F, sk):
     """forall_check_loops of F and of its rejecting predicate helpers: [(function, header, cond, polarity, canon)]"""
     out = [(F, h, c, pol, s) for (h, c, pol, s) in forall_check_loops(P, F, sk)]
-    for H, call in rejecting_predicates(P, F):
-        out += [(H, h, c, pol, s) for (h, c, pol, s) in forall_check_loops(P, H, sk)]
+    for H, call, nonzero_rejects in rejecting_predicates(P, F):
+        out += [(H, h, c, pol, s) for (h, c, pol, s) in forall_check_loops(P, H, sk, accept_nonzero=not nonzero_rejects)]
     return out
 
 
@@ -198,6 +213,8 @@ def g_res0_unpack(chk, P, D, sk):
                         s = '(' + canon(P, F, init, sk) + '<' + canon(P, F, cn['c'][1], sk) + ')'
             if not pol and '.book_param[' in s and '.groupbook' in s and '.dim' in s and s.endswith('<1)'):
                 ok = True
+    if not ok:
+        ok = _rejected_in_helper(P, F, sk, lambda cs: '.book_param[' in cs and '.groupbook' in cs, 'dim', 0)
     chk.ob(RULE, 'res0_unpack', 'groupbook-dim>=1', ok, F.where(succ[0]),
            'the success return is reached only when (book_param[groupbook]->dim < 1) is false' if ok else
            'no dominating test rejects a phrase book of dimension 0: partitions_per_word would be 0 (division by zero in '
@@ -223,6 +240,53 @@ def g_res0_unpack(chk, P, D, sk):
         chk.ob(RULE, 'res0_unpack', f'stage-books:{name}', okb, F.where(hit[0][1]) if hit else F.where(),
                f'checked for every stored stage book (loop bound {loop_bound(F, hit[0][0])} = bound of the storing loop)' if okb else
                f'no for-all check "{name}" over the stage book list (bounds of storing loops: {sorted(map(str, store_bounds))})')
+
+
+def _rejected_in_helper(P, F, sk, is_arg, field, bad_hi):
+    """the check `arg->field <= bad_hi is rejected` done by a helper: F hands the object to a file-local helper H; analysed
+    with arg->field in (-inf, bad_hi] on entry (K4) every return of H is a failure value (negative / NULL); and analysed with
+    that call yielding a failure value, F reaches no success return"""
+    for c in F.calls():
+        nd = F.ex[c]
+        if 'd' not in nd['callee']:
+            continue
+        H = P.get(nd['callee']['d'], F)
+        if H is None or not H.static or H.entry is None:
+            continue
+        for i, a in enumerate(nd.get('c', [])):
+            if i >= len(H.params) or not is_arg(sk.canon(F, F.strip_casts(a))):
+                continue
+            pid = H.params[i]['id']
+            A = absint.Analyzer(P, H)
+            base_init = A.initial_env
+
+            def init(A=A, pid=pid, base_init=base_init):
+                env = base_init()
+                env[f'v{pid}'] = V(nn=True)
+                env[f'v{pid}->{field}'] = V(-2 ** 31, bad_hi)
+                return env
+            A.initial_env = init
+            A.run()
+            isptr = H.d.get('ret_t', '').endswith('*')
+            rets = [v for (_, _, v) in A.ret_states]
+            if not rets or not all(v is not None and ((isptr and (v.nn is False or v.const() == 0)) or (not isptr and v.hi < 0)) for v in rets):
+                continue
+            # the caller turns the helper's failure into its own
+            h2 = absint.Hooks()
+
+            def post_call(A2, env, e, r, c=c, isptr=isptr):
+                if e == c:
+                    return V(0, 0, nn=False) if isptr else V(-2 ** 31, -1)
+                return None
+            h2.post_call = post_call
+            A2 = absint.Analyzer(P, F, hooks=h2)
+            A2.run()
+            fptr = F.d.get('ret_t', '').endswith('*')
+            accepts = [v for (_, _, v) in A2.ret_states
+                       if v is None or (fptr and not (v.nn is False or v.const() == 0)) or (not fptr and v.lo <= 0 <= v.hi)]
+            if not accepts:
+                return True
+    return False
 
 
 def g_floor1_unique_posts(chk, P, D, sk):
